@@ -197,7 +197,11 @@ fn grid_batch(t: &mut Tape, ty: &LType, nullable: bool, fmt: usize) -> (Vec<LFie
     let schema = schema_of(&fields, None);
     let rows = 7;
     let vcfg = ValCfg { nan: fmt == 2, max_str: 8, max_list: 3, ..ValCfg::default() };
-    let raw = gen_lbatch(t, &fields, rows, &vcfg);
+    let mut raw = gen_lbatch(t, &fields, rows, &vcfg);
+    if !matches!(ty, LType::Null) && raw[0][0].is_null() {
+        // at least one real value, so that a representation mismatch cannot hide behind an all-null column
+        raw[0][0] = gen_nonnull(t, ty, &vcfg);
+    }
     let col: Vec<LValue> = raw[0]
         .iter()
         .map(|v| {
@@ -282,7 +286,7 @@ pub fn sub_grid(c: &mut Case) -> CaseResult {
 }
 
 // ------------------------------------------------------------------------------------------------ findings
-pub const FINDINGS: u64 = 8;
+pub const FINDINGS: u64 = 14;
 
 /// Hand-written reproductions of the suspected defects found while building this check (index = finding).
 /// Signatures are listed (status open) in known_findings.json; generators exclude exactly these shapes.
@@ -386,6 +390,108 @@ pub fn sub_findings(c: &mut Case) -> CaseResult {
             };
             let got = collect(&schema, &out).1;
             ensure!(got[0].len() == 2 && got[0][1].is_null(), "json:fixedsizelist-null-nested-item", "reads back as {:?}", got[0]);
+        }
+        // Avro OCF writer: a user-supplied avro.schema is used for the body but not written to the header
+        8 => {
+            let js = r#"{"type":"record","name":"topLevelRecord","fields":[{"name":"c0","type":["boolean","null"]}]}"#;
+            let md = HashMap::from([(arrow_avro::schema::SCHEMA_METADATA_KEY.to_string(), js.to_string())]);
+            let schema = Arc::new(Schema::new_with_metadata(vec![Field::new("c0", DataType::Boolean, true)], md));
+            let b = RecordBatch::try_new(schema.clone(), vec![Arc::new(BooleanArray::from(vec![Some(true)])) as ArrayRef]).unwrap();
+            let bytes = avro_write_ocf(schema.as_ref(), &[b], &AvroOpts::default()).map_err(|e| Fail::new("avro:ocf-custom-schema-header", e))?;
+            let rd = arrow_avro::reader::ReaderBuilder::new().build(std::io::Cursor::new(bytes.clone())).map_err(|e| Fail::new("avro:ocf-custom-schema-header", e.to_string()))?;
+            let hdr = rd.avro_header().get(arrow_avro::schema::SCHEMA_METADATA_KEY).map(|x| String::from_utf8_lossy(x).to_string()).unwrap_or_default();
+            let a: serde_json::Value = serde_json::from_str(&hdr).unwrap_or(serde_json::Value::Null);
+            let w: serde_json::Value = serde_json::from_str(js).unwrap();
+            ensure!(a == w, "avro:ocf-custom-schema-header", "WriterBuilder documents that an avro.schema metadata entry is used verbatim; the record body is encoded with it ({}) but the OCF header advertises {} — the file is mis-decoded by every reader (block bytes {:?})", js, hdr, &bytes[bytes.len().saturating_sub(20)..bytes.len() - 16]);
+        }
+        // Avro OCF reader: a block whose records need fewer bytes than the block size makes Reader::next spin forever
+        9 => {
+            let js = r#"{"type":"record","name":"r","fields":[{"name":"x","type":"int"}]}"#;
+            let mut f: Vec<u8> = b"Obj\x01".to_vec();
+            let put_bytes = |f: &mut Vec<u8>, b: &[u8]| {
+                f.push((b.len() as u8) << 1); // zig-zag, lengths < 64
+                f.extend_from_slice(b);
+            };
+            f.push(4); // 2 metadata entries
+            put_bytes(&mut f, b"avro.schema");
+            f.push(((js.len() as u32) << 1 & 0x7f) as u8 | 0x80);
+            f.push(((js.len() as u32) << 1 >> 7) as u8);
+            f.extend_from_slice(js.as_bytes());
+            put_bytes(&mut f, b"avro.codec");
+            put_bytes(&mut f, b"null");
+            f.push(0);
+            let sync = [7u8; 16];
+            f.extend_from_slice(&sync);
+            f.extend_from_slice(&[2, 4, 2, 2]); // 1 record, 2 bytes of data: int 1 + one surplus byte
+            f.extend_from_slice(&sync);
+            let (tx, rx) = std::sync::mpsc::channel();
+            std::thread::spawn(move || {
+                let r = catch(|| avro_read_ocf_inner(&f, &AvroOpts::default(), 1024).map(|x| x.1.iter().map(|b| b.num_rows()).sum::<usize>()));
+                let _ = tx.send(match r {
+                    Ok(x) => format!("{:?}", x),
+                    Err(p) => format!("panic {}", p.msg),
+                });
+            });
+            match rx.recv_timeout(std::time::Duration::from_secs(3)) {
+                Ok(_) => {}
+                Err(_) => fail!("avro:ocf-reader-spins-on-surplus-block-bytes", "arrow-avro Reader does not return within 3 s on a 1-record OCF block that carries one surplus byte (Reader::read loops: block_count reaches 0 while block_cursor < block_data.len())"),
+            }
+        }
+        // Avro writer: nullable run-end encoded field nested in a struct gets two union tags
+        10 => {
+            let ree = LType::Ree { rbits: 16, value: Box::new(LField::new("values", LType::Utf8(Enc::O32), true)) };
+            let fields = vec![LField::new("c0", LType::Struct(vec![LField::new("b", ree, true)]), false)];
+            let schema = schema_of(&fields, None);
+            let cols = vec![vec![LValue::Struct(vec![LValue::Str("ab".into())]), LValue::Struct(vec![LValue::Null])]];
+            let mut t = Tape::new(vec![]);
+            let b = realise_batch(&mut t, &schema, &fields, &cols, 2, &Lay::plain());
+            let o = AvroOpts { framing: AvroFraming::SoeRabin, ..AvroOpts::default() };
+            let js = avro_schema_json(schema.as_ref()).map_err(|e| Fail::new("avro:nested-nullable-runend", e))?;
+            let msgs = avro_encode_rows(schema.as_ref(), &[b], &o).map_err(|e| Fail::new("avro:nested-nullable-runend", e))?;
+            let got = no_panic("avro:decode", || avro_read_stream(&js, &msgs.concat(), &o, 8, &[]))?;
+            let ok = matches!(&got, Ok((s, out)) if collect(s, out).1 == cols);
+            ensure!(ok, "avro:nested-nullable-runend", "Struct{{b: RunEndEncoded<Utf8>?}} rows [{{ab}}, {{null}}] with Avro schema {} are encoded as {:?} (union tag written twice); reading them back gives {:?}", js, msgs.iter().map(|m| m[10..].to_vec()).collect::<Vec<_>>(), got.map(|x| x.1.iter().map(|b| format!("{:?}", extract_batch(b))).collect::<Vec<_>>()));
+        }
+        // Avro reader with_utf8_view(true): null strings come back as empty strings
+        11 => {
+            let schema = Arc::new(Schema::new(vec![Field::new("s", DataType::Utf8, true)]));
+            let b = RecordBatch::try_new(schema.clone(), vec![Arc::new(StringArray::from(vec![Some("a"), None])) as ArrayRef]).unwrap();
+            let o = AvroOpts { utf8view: true, ..AvroOpts::default() };
+            let bytes = avro_write_ocf(schema.as_ref(), &[b], &o).map_err(|e| Fail::new("avro:utf8view-null-string", e))?;
+            let (s, out) = no_panic("avro:read", || avro_read_ocf(&bytes, &o, 1024))?.map_err(|e| Fail::new("avro:utf8view-null-string", e))?;
+            let got = collect(&s, &out).1;
+            ensure!(got[0] == vec![LValue::Str("a".into()), LValue::Null], "avro:utf8view-null-string", "nullable string column [\"a\", null] read with with_utf8_view(true) gives {:?} (type {})", got[0], s.field(0).data_type());
+        }
+        // Avro writer: Map whose values child is a sliced BooleanArray (Array::offset() != 0) is written from wrong positions
+        12 => {
+            let keys = StringArray::from(vec!["a", "b"]);
+            let vals = BooleanArray::from(vec![true, false, true]).slice(1, 2); // [false, true]
+            let kf = Arc::new(Field::new("key", DataType::Utf8, false));
+            let vf = Arc::new(Field::new("value", DataType::Boolean, false));
+            let entries = StructArray::try_new(vec![kf, vf].into(), vec![Arc::new(keys) as ArrayRef, Arc::new(vals) as ArrayRef], None).unwrap();
+            let ef = Arc::new(Field::new("entries", entries.data_type().clone(), false));
+            let map = MapArray::try_new(ef, arrow_buffer::OffsetBuffer::new(vec![0i32, 2].into()), entries, None, false).unwrap();
+            let schema = Arc::new(Schema::new(vec![Field::new("m", map.data_type().clone(), false)]));
+            let b = RecordBatch::try_new(schema.clone(), vec![Arc::new(map) as ArrayRef]).unwrap();
+            let want = extract_batch(&b);
+            let o = AvroOpts::default();
+            let bytes = avro_write_ocf(schema.as_ref(), &[b], &o).map_err(|e| Fail::new("avro:map-values-offset", e))?;
+            let (s, out) = no_panic("avro:read", || avro_read_ocf(&bytes, &o, 1024))?.map_err(|e| Fail::new("avro:map-values-offset", e))?;
+            let got = collect(&s, &out).1;
+            ensure!(got == want, "avro:map-values-offset", "Map {{a:false,b:true}} whose values are BooleanArray[true,false,true].slice(1,2) is written as {:?} (MapEncoder subtracts values().offset() from the entry index)", got[0]);
+        }
+        // Avro writer: sliced RunArray
+        13 => {
+            let ree: Int32RunArray = vec![Some("a"), Some("a"), Some("b"), Some("b"), Some("c")].into_iter().collect();
+            let sl = ree.slice(2, 3);
+            let schema = Arc::new(Schema::new(vec![Field::new("r", sl.data_type().clone(), true)]));
+            let b = RecordBatch::try_new(schema.clone(), vec![Arc::new(sl) as ArrayRef]).unwrap();
+            let want = extract_batch(&b);
+            let o = AvroOpts::default();
+            let bytes = avro_write_ocf(schema.as_ref(), &[b], &o).map_err(|e| Fail::new("avro:sliced-runend", e))?;
+            let (s, out) = no_panic("avro:read", || avro_read_ocf(&bytes, &o, 1024))?.map_err(|e| Fail::new("avro:sliced-runend", e))?;
+            let got = collect(&s, &out).1;
+            ensure!(got == want, "avro:sliced-runend", "RunArray [a,a,b,b,c].slice(2,3) = {:?} is written as {:?}", want[0], got[0]);
         }
         // Avro single-object stream: a trailing message whose body is zero bytes long is not counted
         _ => {
